@@ -19,6 +19,18 @@ From NV Require Sam.Lazy Text.TextBase Text.Gff Text.GffLine Text.Gtf Text.GtfLi
   Index.Layout Bcf.Typed Bcf.Strings Bcf.Genotype Bcf.Record Bcf.RecordTyped Bcf.NeverPanics.
 From NV Require Index.CsiLayout Index.TextIndex.
 From NV Require Hostile.TotalSam Hostile.TotalText Hostile.TotalBin Hostile.TotalBam Hostile.TotalBcf Hostile.TotalIdx Hostile.Fused Hostile.FusedProofs.
+(* sixth wave: CRAM codecs (C08), SAM lazy data (C06), BAM file / reused buffer (C05), BGZF inflater
+   soundness (C01), CRAM framing (C13) and index walk / query (C19), FASTA / FASTQ (C11), VCF lazy
+   record (C12) *)
+From NV Require Cram.Nx16O0 Cram.Nx16O1 Cram.Nx16Full Cram.Nx16Stripe Cram.Aac Cram.AacRle Cram.Fqz Cram.Names
+  Cram.Cap Cram.Nx16Cap Cram.AacCap Cram.FqzCap Cram.NamesCap
+  Cram.Nx16O0Total Cram.Nx16O1Total Cram.Nx16StripeProofs Cram.AacTotal Cram.AacModesTotal Cram.FqzTotal
+  Cram.NamesTotal Cram.Nx16CapProofs Cram.AacCapProofs Cram.FqzCapProofs Cram.NamesCapProofs.
+From NV Require Sam.LazyData Sam.LazyDataProofs Bam.File Bam.FileProofs Bam.Reuse Bam.ReuseProofs
+  Bgzf.InflateSpec Bgzf.InflateReader Bgzf.Crc32 Trunc.Stream Trunc.Cram Trunc.CramBlocks CramIdx.Bytes
+  CramIdx.AsyncQuery Fasta.Layout Fasta.Reader Fasta.Indexer Fasta.Fastq Io.TabRead Io.Run.
+From NV Require Hostile.TotalCram Hostile.TotalFast Hostile.TotalVcf.
+From NV Require Vcf.Line Vcf.LazyRec Vcf.LazyRecProofs.
 Import ListNotations.
 Open Scope N_scope.
 
@@ -507,3 +519,266 @@ Proof. split; vm_compute; reflexivity. Qed.
 Example c15_nonvacuous_bgzf : forall inflate,
   NV.Bgzf.Reader.reader_read_to_end inflate [31;139;8;4;0;0;0;0;0;255;6;0;66;67;2;0;5;0] = ([], NV.Bgzf.Frame.Err NV.Bgzf.Frame.InvalidData).
 Proof. intro inflate. vm_compute. reflexivity. Qed.
+
+
+(* ============================================================================================ *)
+(* SIXTH WAVE: totality of everything other properties have modelled since.                      *)
+(* "Every byte string" is [Forall (fun b => b < 256) bs] where the owner's theorem needs the     *)
+(* elements to be bytes; the other theorems hold for every list of numbers.                      *)
+(* ============================================================================================ *)
+
+Definition bytes_only (bs : list N) : Prop := Forall (fun b => b < 256) bs.
+
+(* ---- (14) CRAM block codecs: the full decoder models of C08 -------------------------------- *)
+
+(* rANS Nx16 (order 0, order 1, the whole stream under every flag byte incl. STRIPE), the adaptive
+   arithmetic coder (order 0 and the whole stream under every flag byte: order 0/1, RLE, PACK, CAT,
+   nested STRIPE; EXT is answered "unsupported"), fqzcomp and the name tokenizer: on EVERY byte
+   string and every declared output size the result is bytes, an io::Error or "unsupported" --
+   never the Panic outcome the models place at each division, table index and checked u32
+   operation.  (C08's theorems, gathered; the models are compared with the crates by C08's kinds.) *)
+Definition c15_cram_codecs_full_statement : Prop :=
+  (forall bs len n, (0 < n)%nat -> bytes_only bs -> NV.Cram.Nx16O0.nxd0_decode bs len n <> NV.Cram.Nx16O0.RPanic) /\
+  (forall bs len n, (0 < n)%nat -> bytes_only bs -> NV.Cram.Nx16O1.nxd1_decode bs len n <> NV.Cram.Nx16O0.RPanic) /\
+  (forall bs usize, bytes_only bs -> NV.Cram.Nx16Full.nx_decode_e bs usize <> NV.Cram.Nx16Xform.DPanic) /\
+  (forall bs usize, bytes_only bs -> NV.Cram.Nx16Stripe.nx_decode_s bs usize <> NV.Cram.Nx16Xform.DPanic) /\
+  (forall bs len, bytes_only bs -> NV.Cram.Aac.aac_o0_decode bs len <> NV.Cram.Nx16O0.RPanic) /\
+  (forall bs usize, bytes_only bs -> NV.Cram.AacRle.aac_decode_r bs usize <> NV.Cram.Nx16Xform.DPanic) /\
+  (forall bs, bytes_only bs -> NV.Cram.Fqz.fqz_decode bs <> NV.Cram.Fqz.FPanic) /\
+  (forall bs, bytes_only bs -> NV.Cram.Names.names_decode bs <> NV.Cram.Names.NmPanic).
+
+Theorem c15_cram_codecs_total : c15_cram_codecs_full_statement.
+Proof.
+  split; [exact NV.Cram.Nx16O0Total.nxd0_decode_never_panics|].
+  split; [exact NV.Cram.Nx16O1Total.nxd1_decode_never_panics|].
+  split; [exact NV.Cram.Nx16O1Total.nx_decode_e_never_panics|].
+  split; [exact NV.Cram.Nx16StripeProofs.nx_decode_s_never_panics|].
+  split; [exact NV.Cram.AacTotal.aac_o0_decode_never_panics|].
+  split; [exact NV.Cram.AacModesTotal.aac_decode_r_never_panics|].
+  split; [exact NV.Cram.FqzTotal.fqz_decode_never_panics|].
+  exact NV.Cram.NamesTotal.names_decode_never_panics.
+Qed.
+Print Assumptions c15_cram_codecs_total.
+
+(* the same for the decoders as they are EXTRACTED and compared (every output-size site guarded by a
+   cap so that a hostile size of 2^32 costs nothing): for every cap the answer is Capped ("outside
+   the model": this is where the known alloc-codec-* classes live -- the real code allocates the
+   declared size up front) or a non-panic result *)
+Theorem c15_cram_codecs_capped_total : forall cap,
+  (forall bs usize, bytes_only bs -> NV.Cram.Nx16Cap.nx_decode_sc cap bs usize <> NV.Cram.Cap.Within NV.Cram.Nx16Xform.DPanic) /\
+  (forall bs usize, bytes_only bs -> NV.Cram.AacCap.aac_decode_rc cap bs usize <> NV.Cram.Cap.Within NV.Cram.Nx16Xform.DPanic) /\
+  (forall bs, bytes_only bs -> NV.Cram.FqzCap.fqz_decode_c cap bs <> NV.Cram.Cap.Within NV.Cram.Fqz.FPanic) /\
+  (forall bs, bytes_only bs -> NV.Cram.NamesCap.names_decode_c cap bs <> NV.Cram.Cap.Within NV.Cram.Names.NmPanic).
+Proof.
+  intro cap.
+  split; [exact (NV.Cram.Nx16CapProofs.nx_decode_sc_never_panics cap)|].
+  split; [exact (NV.Cram.AacCapProofs.aac_decode_rc_never_panics cap)|].
+  split; [exact (NV.Cram.FqzCapProofs.fqz_decode_c_never_panics cap) | exact (NV.Cram.NamesCapProofs.names_decode_c_never_panics cap)].
+Qed.
+Print Assumptions c15_cram_codecs_capped_total.
+
+(* ---- (15) SAM: Record::data().iter() and the conversion to an owned record (C06) ------------- *)
+
+(* the optional-field iterator of the lazy sam::Record and RecordBuf::try_from_alignment_record over
+   it always END, on every data column: the outcome is the fields, UnexpectedEof or InvalidData,
+   never the model's fuel (every parsed field consumes a byte).  [parse32p] is lexical-core's
+   partial float parser, a parameter of C06's model: any function that does not lengthen its input *)
+Theorem c15_sam_lazy_data_total :
+  forall (parse32 : list N -> option N) (parse32p : list N -> option (N * list N)),
+    (forall s v rest, parse32p s = Some (v, rest) -> (length rest <= length s)%nat) ->
+    forall data, NV.Sam.LazyData.lazy_data parse32p data <> NV.Sam.LazyData.DErr NV.Sam.LazyData.DFuel
+              /\ NV.Sam.LazyData.lazy_data_conv parse32 parse32p data <> NV.Sam.LazyData.DErr NV.Sam.LazyData.DFuel.
+Proof.
+  intros p pp H data. split;
+  [exact (NV.Sam.LazyDataProofs.lazy_data_total p pp H data) | exact (NV.Sam.LazyDataProofs.lazy_data_conv_total p pp H data)].
+Qed.
+Print Assumptions c15_sam_lazy_data_total.
+
+(* ---- (16) BAM: the whole-file reader and the REUSED RecordBuf (C05) --------------------------- *)
+
+(* read_header + the record loop end on every stream for a reason of the input (EOF or an error),
+   and decoding into a buffer that still holds ANY previous record -- the state a caller reaches
+   after a hostile record was rejected half way -- gives the result of decoding into a fresh one *)
+Theorem c15_bam_file_total :
+  (forall bs h l e, NV.Bam.File.read_file bs = NV.Bam.Record.Ok (h, (l, e)) -> e <> NV.Bam.File.EndNoFuel) /\
+  (forall p1 p2 bs, NV.Bam.Reuse.decode_into p1 bs = NV.Bam.Reuse.decode_into p2 bs) /\
+  (forall fuel prev bs, NV.Bam.Reuse.read_records_reused fuel prev bs = NV.Bam.File.read_records fuel bs).
+Proof.
+  split; [exact NV.Bam.FileProofs.read_file_fuel|].
+  split; [exact NV.Bam.ReuseProofs.decode_into_independent | exact NV.Bam.ReuseProofs.read_records_reused_eq].
+Qed.
+Print Assumptions c15_bam_file_total.
+
+(* ---- (17) BGZF: what the block reader accepts is a well-formed member (C01's soundness) ------- *)
+
+(* with the executable INFLATE of C01 as the inflater: a hostile frame is never a panic; when it is
+   accepted, its CDATA are a well-formed DEFLATE stream that denotes exactly the bytes returned,
+   ISIZE is their number, CRC32 their CRC-32 -- and there are at most 65536 of them: no block of a
+   hostile file inflates to more than 64 KiB *)
+Theorem c15_bgzf_accepted_block_wellformed : forall frame,
+  Forall NV.Bgzf.InflateSpec.is_byte frame ->
+  NV.Bgzf.Reader.parse_block NV.Bgzf.Inflate.inflate frame <> NV.Bgzf.Frame.Panic /\
+  forall bs d, NV.Bgzf.Reader.parse_block NV.Bgzf.Inflate.inflate frame = NV.Bgzf.Frame.Ok (bs, d) ->
+    exists cdata crc isize,
+      NV.Bgzf.Frame.parse_frame frame = NV.Bgzf.Frame.Ok (bs, cdata, crc, isize) /\
+      NV.Bgzf.InflateSpec.deflate_denotes cdata d /\ NV.Bgzf.Frame.lenN d = isize /\ isize <= 65536 /\
+      NV.Bgzf.Crc32.crc32 d = crc.
+Proof.
+  intros frame Hf. split; [apply NV.Hostile.TotalBin.parse_block_total|].
+  intros bs d H. exact (NV.Bgzf.InflateReader.reader_accepts_only_wellformed frame bs d Hf H).
+Qed.
+Print Assumptions c15_bgzf_accepted_block_wellformed.
+
+(* ---- (18) CRAM framing: containers, blocks, slices (C13's three-way parsers) ------------------ *)
+
+(* The parsers answer POk / PErr UnexpectedEof / PErr InvalidData: there is no panic outcome
+   (faithful: read_exact, split_off, try_from only).  What remains is that a hostile COUNT or LENGTH
+   is accepted only when the bytes are there, for every CRC function:
+   - a data container header holds >= 16 bytes + one per landmark; the container is accepted only
+     with its whole declared body (15 bytes for the EOF container), and a non-EOF body is non-empty;
+   - a block holds >= 5 bytes + its declared data (+ 4 CRC); a slice whose header declares n + 1
+     blocks is accepted only when it holds n + 2 blocks of >= 9 bytes;
+   - Container::slices yields at most one slice per landmark and a landmark outside the body is
+     rejected (get_range). *)
+Theorem c15_cram_container_bounded : forall crc bs h b e r,
+  NV.Trunc.Cram.cram_parse_container crc bs = NV.Trunc.Cram.POk (h, b, e) r ->
+  (16 + length (NV.Trunc.Cram.ch_landmarks h) + length b + length r <= length bs)%nat /\
+  (e = true -> length b = 15%nat) /\
+  (e = false -> N.of_nat (length b) = NV.Trunc.Cram.ch_len h /\ b <> []).
+Proof. exact NV.Hostile.TotalCram.cram_parse_container_bounded. Qed.
+Print Assumptions c15_cram_container_bounded.
+
+Theorem c15_cram_blocks_bounded : forall crc dec,
+  (forall bs b r, NV.Trunc.CramBlocks.blk_fields bs = NV.Trunc.Cram.POk b r ->
+     (5 + length (NV.Trunc.CramBlocks.b_data b) + length r <= length bs)%nat) /\
+  (forall src n r, NV.Trunc.CramBlocks.slice_blocks crc dec src = NV.Trunc.Cram.POk n r ->
+     (9 * (N.to_nat n + 2) + length r <= length src)%nat) /\
+  (forall lms body, (length (fst (NV.Trunc.CramBlocks.container_slices crc dec lms body)) <= length lms)%nat) /\
+  (forall a b src s, NV.Trunc.CramBlocks.get_range a b src = Some s ->
+     a <= b /\ b <= N.of_nat (length src) /\ length s = N.to_nat (b - a)).
+Proof.
+  intros crc dec.
+  split; [first [exact NV.Hostile.TotalCram.blk_fields_bounded | exact (NV.Hostile.TotalCram.blk_fields_bounded crc)]|].
+  split; [exact (NV.Hostile.TotalCram.slice_blocks_bounded crc dec)|].
+  split; [exact (NV.Hostile.TotalCram.container_slices_bounded crc dec)
+         | first [exact NV.Hostile.TotalCram.get_range_inside | exact (NV.Hostile.TotalCram.get_range_inside crc)
+                 | exact (NV.Hostile.TotalCram.get_range_inside crc dec)]].
+Qed.
+Print Assumptions c15_cram_blocks_bounded.
+
+(* Reader::read_header + the container loop of Records on EVERY file: the result is the containers
+   framed so far and Eof / UnexpectedEof / InvalidData -- never the model's fuel --, at most one
+   container per 16 bytes of input.  [hdr_body] = the decoding of the header container's body, a
+   parameter of C13's model *)
+Theorem c15_cram_read_total : forall crc hdr_body file,
+  (forall b, hdr_body b <> Some NV.Trunc.Stream.OutOfFuel) ->
+  snd (snd (NV.Trunc.Cram.cram_read crc hdr_body file)) <> NV.Trunc.Stream.Err NV.Trunc.Stream.OutOfFuel /\
+  (16 * length (fst (snd (NV.Trunc.Cram.cram_read crc hdr_body file))) <= length file)%nat.
+Proof. exact NV.Hostile.TotalCram.cram_read_total. Qed.
+Print Assumptions c15_cram_read_total.
+
+(* ---- (19) CRAM index walk and query over the bytes (C19): hostile index + hostile file -------- *)
+
+(* the container loop of the indexer (walk) from ANY offset and of query_unmapped (records_p) from
+   ANY offset an index entry names, over ANY file: the fuel is never the reason of a result; the
+   slices of a container are cut only inside its body, one per landmark *)
+Theorem c15_cram_index_walk_total : forall crc,
+  (forall f1 f2 pos file recs,
+     (length (NV.CramIdx.Bytes.at_ pos file) < f1)%nat -> (length (NV.CramIdx.Bytes.at_ pos file) < f2)%nat ->
+     NV.CramIdx.Bytes.walk crc f1 pos file recs = NV.CramIdx.Bytes.walk crc f2 pos file recs) /\
+  (forall f f1 f2 pos d, (length d < f1)%nat -> (length d < f2)%nat ->
+     NV.CramIdx.AsyncQuery.records_p crc f f1 pos d = NV.CramIdx.AsyncQuery.records_p crc f f2 pos d) /\
+  (forall body a b s, NV.CramIdx.Bytes.slice_bytes body a b = Some s ->
+     a <= b /\ b <= N.of_nat (length body) /\ length s = N.to_nat (b - a)) /\
+  (forall body lms shs, NV.CramIdx.Bytes.bslices crc body lms = NV.CramIdx.Bytes.BOk shs -> length shs = length lms).
+Proof.
+  intro crc.
+  split; [exact (NV.Hostile.TotalCram.walk_fuel crc)|].
+  split; [exact (NV.Hostile.TotalCram.records_p_fuel crc)|].
+  split; [first [exact NV.Hostile.TotalCram.slice_bytes_inside | exact (NV.Hostile.TotalCram.slice_bytes_inside crc)]
+         | exact (NV.Hostile.TotalCram.bslices_bounded crc)].
+Qed.
+Print Assumptions c15_cram_index_walk_total.
+
+(* ---- (20) FASTA / FASTQ readers and indexers (C11) -------------------------------------------- *)
+
+(* on EVERY byte string the four record loops end because the input ends or a record is rejected
+   (FASTA: InvalidData; FASTA index: InvalidData / empty sequence / ragged line; FASTQ: InvalidData
+   or UnexpectedEof), never because of the model's fuel, with at most one record per line (FASTA)
+   or per byte (FASTQ) *)
+Theorem c15_fasta_fastq_total : forall f,
+  (snd (NV.Fasta.Reader.read_file f) <> Some NV.Fasta.Reader.ROutOfFuel /\
+   (length (fst (NV.Fasta.Reader.read_file f)) <= length (NV.Fasta.Layout.lines f))%nat) /\
+  (snd (NV.Fasta.Indexer.index_file f) <> Some NV.Fasta.Indexer.EOutOfFuel /\
+   (length (fst (NV.Fasta.Indexer.index_file f)) <= length (NV.Fasta.Layout.lines f))%nat) /\
+  (snd (NV.Fasta.Fastq.read_qfile f) = None \/ snd (NV.Fasta.Fastq.read_qfile f) = Some NV.Fasta.Fastq.QInvalidData \/
+   snd (NV.Fasta.Fastq.read_qfile f) = Some NV.Fasta.Fastq.QUnexpectedEof) /\
+  (snd (NV.Fasta.Fastq.index_qfile f) <> Some NV.Fasta.Fastq.QOutOfFuel /\
+   (length (fst (NV.Fasta.Fastq.index_qfile f)) <= length f)%nat).
+Proof.
+  intro f.
+  split; [exact (NV.Hostile.TotalFast.fasta_read_file_total f)|].
+  split; [exact (NV.Hostile.TotalFast.fasta_index_file_total f)|].
+  split; [exact (NV.Hostile.TotalFast.fastq_read_file_total f) | exact (NV.Hostile.TotalFast.fastq_index_file_total f)].
+Qed.
+Print Assumptions c15_fasta_fastq_total.
+
+(* ---- (21) VCF: the lazy record (vcf::io::Reader::read_record + the accessors of vcf::Record) --- *)
+
+(* C12's closed form of the repaired reader: Ok n or InvalidData on every byte string; when it is Ok
+   there are exactly eight bounds, nondecreasing, the last inside the buffer, so every range an
+   accessor builds (`&buf[bound i .. bound j]`, i <= j) lies inside the buffer and the model's
+   slice is exactly that long *)
+Theorem c15_vcf_lazy_bounds : forall d n buf ends rest,
+  NV.Io.TabRead.wx_vcf_read_record d = (NV.Text.TextBase.Ok n, buf, ends, rest) ->
+  length ends = 8%nat /\ NV.Hostile.TotalVcf.chain 0 ends (length buf) /\
+  forall i j, (i <= j)%nat -> (j < 8)%nat ->
+    (nth i ends 0 <= nth j ends 0)%nat /\ (nth j ends 0 <= length buf)%nat /\
+    length (NV.Io.Run.vslice buf (nth i ends 0%nat) (nth j ends 0%nat)) = (nth j ends 0 - nth i ends 0)%nat.
+Proof.
+  intros d n buf ends rest E.
+  destruct (NV.Hostile.TotalVcf.vcf_read_record_bounds d n buf ends rest E) as [H1 H2].
+  split; [exact H1|]. split; [exact H2|].
+  intros i j Hij Hj. exact (NV.Hostile.TotalVcf.vcf_accessor_ranges_valid d n buf ends rest i j E Hij Hj).
+Qed.
+Print Assumptions c15_vcf_lazy_bounds.
+
+Theorem c15_vcf_lazy_three_way : forall d,
+  (exists n, fst (fst (fst (NV.Io.TabRead.wx_vcf_read_record d))) = NV.Text.TextBase.Ok n) \/
+  fst (fst (fst (NV.Io.TabRead.wx_vcf_read_record d))) = NV.Text.TextBase.Err NV.Text.TextBase.InvalidData.
+Proof. exact NV.Hostile.TotalVcf.vcf_read_record_three_way. Qed.
+Print Assumptions c15_vcf_lazy_three_way.
+
+(* C09's model of the same reader WITH the accessors (NV.Vcf.LazyRec: read_record, the Fields
+   slices with an explicit LPanic where `&buf[a..b]` would panic, the lazy -> owned conversion; L2
+   kind `lzb` of C09 on arbitrary bytes): no record of any file, under any UTF-8 validator and any
+   float parser, reaches the panic outcome (C09's theorem, restated) *)
+Theorem c15_vcf_lazy_never_panics : forall valid prs_float h text,
+  NV.Vcf.LazyRec.lazy_run prs_float valid h text <> NV.Vcf.LazyRec.LPanic /\
+  ~ List.In NV.Vcf.LazyRec.LPanic (NV.Vcf.LazyRec.lazy_records prs_float valid h text).
+Proof.
+  intros valid prs h text. split;
+  [exact (NV.Vcf.LazyRecProofs.lazy_never_panics valid prs h text)
+  | exact (NV.Vcf.LazyRecProofs.lazy_records_never_panic valid prs h text)].
+Qed.
+Print Assumptions c15_vcf_lazy_never_panics.
+
+(* non-vacuity of the sixth wave: the hypotheses are satisfiable and hostile inputs are errors *)
+Example c15_nonvacuous_vcf_lazy :
+  (* "c\t1\t.\tA\t.\t.\t.\t.\r\n": eight bounds, CR popped *)
+  NV.Io.TabRead.wx_vcf_read_record [99;9;49;9;46;9;65;9;46;9;46;9;46;9;46;13;10]
+    = (NV.Text.TextBase.Ok 17%nat, [99;49;46;65;46;46;46;46], [1;2;3;4;5;6;7;8]%nat, [])
+  /\ (* a line that ends after three columns *)
+  fst (fst (fst (NV.Io.TabRead.wx_vcf_read_record [99;9;49;9;46;10]))) = NV.Text.TextBase.Err NV.Text.TextBase.InvalidData.
+Proof. split; vm_compute; reflexivity. Qed.
+Example c15_nonvacuous_cram_container : forall crc,
+  (* a container header that declares 2^31 - 1 landmarks in a 20-byte input is UnexpectedEof *)
+  NV.Trunc.Cram.dc_fields [1;0;0;0; 0; 1; 1; 0; 0; 0; 1; 247;255;255;255;15; 0;0;0;0]
+    = NV.Trunc.Cram.PErr NV.Trunc.Stream.UnexpectedEof
+  /\ fst (NV.Trunc.Cram.cram_read crc (fun _ => None) [67;82;65;77]) = false.
+Proof. intro crc. split; vm_compute; reflexivity. Qed.
+Example c15_nonvacuous_fastq :
+  NV.Fasta.Fastq.read_qfile [64;114;10;65;10;43;10;33;10] = ([NV.Fasta.Fastq.mkqrec [114] [] [65] [33]], None)
+  /\ snd (NV.Fasta.Fastq.read_qfile [64;114;10;65;10]) = Some NV.Fasta.Fastq.QUnexpectedEof
+  /\ snd (NV.Fasta.Reader.read_file [65;10]) = Some NV.Fasta.Reader.RInvalidData.
+Proof. repeat split; vm_compute; reflexivity. Qed.
